@@ -69,6 +69,21 @@ impl<const X: usize> KalmanState<X> {
     }
 }
 
+#[cfg(similari_verif)]
+impl<const X: usize> KalmanState<X> {
+    /// verification hook: read-only copy of the mean and the (row-major) covariance
+    pub fn verif_raw(&self) -> (Vec<f32>, Vec<f32>) {
+        let mean = (0..X).map(|i| self.mean[i]).collect();
+        let mut cov = Vec::with_capacity(X * X);
+        for r in 0..X {
+            for c in 0..X {
+                cov.push(self.covariance[(r, c)]);
+            }
+        }
+        (mean, cov)
+    }
+}
+
 impl<const X: usize> TryFrom<KalmanState<X>> for Universal2DBox {
     type Error = Errors;
 
